@@ -32,19 +32,4 @@ theorem fold128_32_eq (v : V) : stepN P32' 128 (fold v p32.fold128) = stepN P32'
   refine basisAll_sound (Lin.comp (lin_fold _) (lin_stepN P32' 128)) (lin_stepN P32' 256) ?_ v
   rw [p32_eq]; decide +kernel
 
-/-- five times 128 steps -/
-def L5 (P : V) (v : V) : V := stepN P 128 (stepN P 128 (stepN P 128 (stepN P 128 (stepN P 128 v))))
-
-theorem L5_eq (P : V) (v : V) : L5 P v = stepN P 640 v := by
-  simp only [L5, ← stepN_add]
-
-theorem lin_L5 (P : V) : Lin (L5 P) := fun x y => by simp only [L5, stepN_xor]
-
-set_option maxRecDepth 8000 in
-/-- folding by 512 bits: `fold(v, fold512) ≡ v·x^512`. -/
-theorem fold512_32_eq (v : V) : stepN P32' 128 (fold v p32.fold512) = stepN P32' 640 v := by
-  rw [← L5_eq]
-  refine basisAll_sound (Lin.comp (lin_fold _) (lin_stepN P32' 128)) (lin_L5 P32') ?_ v
-  rw [p32_eq]; decide +kernel
-
 end XzVerif.Clmul
